@@ -91,10 +91,22 @@ func (c *Context) AbortWithStatus(code int, msg ...string) {
 
 // Next processing, run all handlers
 func (c *Context) Next() {
-	c.index++
 	s := int8(len(c.handlers))
-	for ; c.index < s; c.index++ {
+	// all handlers have been run, or the chain has been aborted.
+	if c.index >= s {
+		return
+	}
+
+	c.index++
+	for c.index < s {
 		c.handlers[c.index](c)
+
+		// the handler has run the remaining handlers by call Next(), or has aborted.
+		// Notice: don't increment again, otherwise the index will reach the abortIndex.
+		if c.index >= s {
+			break
+		}
+		c.index++
 	}
 }
 
